@@ -116,16 +116,20 @@ class DataSaveable:
         """
         shpl = list(self.data.shape)
         
+        # the axis shares the array with the data: a type that holds both
+        dtype = numpy.result_type(self.data.dtype, 
+                                  numpy.asarray(axis.data).dtype)
+        
         if len(shpl) == 2:
             shpl[1] += 1
             shp = tuple(shpl)
-            data = numpy.zeros(shp,dtype=self.data.dtype)
+            data = numpy.zeros(shp,dtype=dtype)
             data[:,1:] = self.data
             data[:,0] = axis.data     
         elif len(shpl) == 1:
             shpl.append(2)
             shp = tuple(shpl)
-            data = numpy.zeros(shp,dtype=self.data.dtype)
+            data = numpy.zeros(shp,dtype=dtype)
             data[:,1] = self.data
             data[:,0] = axis.data
         else:
